@@ -202,6 +202,24 @@ ACCESSOR_ROLE = {
 }
 
 
+def unquoters_behind(K, model, term, fi, seen, via=""):
+    """(name, configuration, through-which-accessor) of every unquoter whose output a term is built from, following
+    reads of other URL properties."""
+    out = []
+    for t in walk(term):
+        if t[0] == "call":
+            q = K.quoter_of(t[1])
+            if q and q[1][0] == "unquoter":
+                out.append((q[0], q[1][1], via))
+        if t[0] == "attr" and t[1] == ("param", "self") and model.has_func(f"_url.URL.{t[2]}") and t[2] not in seen:
+            pf = model.func(f"_url.URL.{t[2]}")
+            if pf.memo == "cached_property":
+                seen.add(t[2])
+                for _s, v2, _n in analyze(model, pf).returns:
+                    out.extend(unquoters_behind(K, model, v2, pf, seen, via or t[2]))
+    return out
+
+
 def k4(ctx: Ctx, K: Kinds):
     model = ctx.model
     rule = "K4"
@@ -232,6 +250,12 @@ def k4(ctx: Ctx, K: Kinds):
             kd = K.kind(v, s.facts, fi, None, r)
             if any(x.startswith("ENC") or x in (RAW, UNK) for x in kd):
                 problems.append(f"returns text of kind {sorted(kd)} ({show(v)[:50]})")
+            # ... and of no *other* unquoter: a value taken from another decoded accessor was decoded under that
+            # accessor's rules (e.g. `path` decodes %2F, which `path_safe` promises to keep)
+            for uname, ucfg, via in unquoters_behind(K, model, v, fi, set()):
+                if not pred(ucfg):
+                    problems.append(f"returns text decoded by {uname}{' (through ' + via + ')' if via else ''}, whose configuration "
+                                    f"{ucfg} is not the one `{acc}` promises")
         ctx.ob(rule, q, f"decoded accessor `{acc}`", not problems, "; ".join(sorted(set(problems))), where(fi, fi.node),
                sample=f"unquoter over raw {role}")
     # `query` goes through parse_qsl over the raw query
